@@ -249,7 +249,8 @@ Definition apply_filter (f : fname) (v : val) (args : list val) : eres :=
       | None => EUnm
       end
   | FAppend, [a] =>
-      match to_liquid_string v, py_str_arg a with
+      (* since /repo f4fb334 the argument takes its Liquid string form, like prepend *)
+      match to_liquid_string v, to_liquid_string a with
       | Some s, Some t => EOk (VStr (s ++ t))
       | _, _ => EUnm
       end
@@ -277,10 +278,8 @@ Definition apply_filter (f : fname) (v : val) (args : list val) : eres :=
       match num_arg0 v, num_arg0 a with Some x, Some y => EOk (VInt (x * y)) | _, _ => EUnm end
   | FJoin, [] | FJoin, [_] =>
       let sep := match args with
-                 | [VStr s] => Some s
-                 | [VInt z] => Some (str_of_Z z)
-                 | [] => Some [32%N]
-                 | _ => None
+                 | [a] => to_liquid_string a      (* Liquid string form since /repo f4fb334 *)
+                 | _ => Some [32%N]
                  end in
       match sep, sequence_arg v with
       | Some sp, Some items =>
@@ -299,7 +298,11 @@ Definition apply_filter (f : fname) (v : val) (args : list val) : eres :=
       | VList (x :: _) => EOk x
       | VRange lo hi => if (hi <? lo)%Z then EOk VNil else EOk (VInt lo)
       | VUndef => EOk VUndef
-      | VNil | VBool _ | VInt _ | VForLoop _ _ _ _ => EOk VNil
+      | VForLoop _ _ idx _ =>
+          (* a ForLoop is a Mapping whose items are sorted by key: the first pair is
+             ("first", forloop.first) (first on any Mapping since /repo d21fa41) *)
+          EOk (VList [VStr s_first; VBool (Z.eqb idx 0)])
+      | VNil | VBool _ | VInt _ => EOk VNil
       | _ => EUnm
       end
   | FLast, [] =>
@@ -931,7 +934,12 @@ Fixpoint render_iter (body : list node) (key : str) (len : Z) (nsp : ns)
       let nsx := dict_set key it (dict_set s_forloop (VForLoop key len i VUndef) nsp) in
       let r := partial_template body (set_globals cc (nsx :: root_globals cc)) b true in
       match st r with
-      | SDone => render_iter body key len nsp its' (i + 1)%Z (cx r) (bf r)
+      | SDone =>
+          (* every item is rendered in an isolated copy of its own (since /repo
+             fix "render ... for rendered every item in the same context"): the
+             next item starts from the fresh copy [cc], not from where this one
+             left its context *)
+          render_iter body key len nsp its' (i + 1)%Z cc (bf r)
       | _ => r
       end
   end.
@@ -1015,7 +1023,10 @@ Definition render_call (name : str) (args : list expr) (kwargs : list (str * exp
             match copy_isolated g c nsp [s_include; s_block] (tname c) with
             | None => mk (SErr ContextDepthError) c b
             | Some cc =>
-                let r := block (m_body m) cc b in
+                (* the body has its own variable scope, but gets a copy of the
+                   caller's registry of macros (a macro may call another macro
+                   or itself; what it defines stays inside) *)
+                let r := block (m_body m) (set_macros cc (macros c)) b in
                 mk (st r) c (bf r)
             end
         end
